@@ -35,6 +35,9 @@ def client_fn(sim, task_name, target, prog, history, ctx, get_task):
             if op.get('op') == 'sleep':
                 sim.sleep(op['dt'])
                 continue
+            if op.get('op') == 'advance':
+                sim.advance(op['dt'])
+                continue
             rec = {'task': task_name, 'i': i, 'op': op, 'inv': sim.stamp(), 'ret': None, 'res': None}
             history.append(rec)
             res = run_op(target, op, ctx)
